@@ -370,7 +370,7 @@ class Arnoldi(KrylovBased):
         """
         assert self.N_cache >= self.N_max
         N = self._build_krylov()
-        E0 = self.Es[N - 1, : self.num_ev]
+        E0 = self.Es[N - 1, : min(N, self.num_ev)]  # only N Ritz values exist
         if self.E_shift is not None:
             E0 = E0 - self.E_shift
         if N == 1:
@@ -459,7 +459,7 @@ class Arnoldi(KrylovBased):
         v0 = self._result_krylov[:, 0]
         E = self.Es[k, :]  # current energies
         RitzRes = abs(v0[k]) * self._h_krylov[k + 1, k]
-        gap = max(min([np.min(np.abs(E[i + 1 :] - E[i])) for i in range(self.num_ev)]), self.min_gap)
+        gap = max(min([np.min(np.abs(E[i + 1 :] - E[i])) for i in range(min(self.num_ev, len(E) - 1))]), self.min_gap)
         P_err = (RitzRes / gap) ** 2
         Delta_E0 = self.Es[k - 1, 0] - E[0]
         return P_err < self.P_tol and Delta_E0 < self.E_tol
